@@ -149,6 +149,7 @@ type Exec struct {
 	closureInfo map[*ast.FuncLit]*types.Info
 	callSites   []token.Pos
 	directAssigned map[*types.Var]bool
+	litN           int
 	heapInit       map[string]string // field key -> the array constant that stands for the heap at function entry
 }
 
